@@ -144,7 +144,8 @@ _SEP = st.sampled_from([", ", "\n", "; ", " "])
 
 @st.composite
 def fallback_case(draw):
-    reason = draw(st.sampled_from(["no_twprge", "no_section", "colon_required", "illegal_prior", "secword_without_number", "nothing"]))
+    reason = draw(st.sampled_from(["no_twprge", "no_section", "colon_required", "illegal_prior", "secword_without_number", "nothing", "no_section_amid_text"]))
+    via = "config"
     cfg = dict(draw(configs.config_values(exclude=("wait_to_parse", "layout", "segment", "sec_colon_required", "sec_colon_cautious", "ocr_scrub"))))
     n = draw(st.integers(1, 3))
     parts = []
@@ -159,8 +160,18 @@ def fallback_case(draw):
         for _ in range(n):
             parts.append(f"{draw(_TR)}{draw(_SEP)}{draw(_BLOCKS)}")
         text = draw(_SEP).join(parts)
+    elif reason == "no_section_amid_text":
+        # one Twp/Rge with text on either side of it and no numbered section anywhere (the words 'Section' / 'Second' may occur)
+        pre = draw(st.sampled_from(["That part of Section line road in ", "Some preamble, ", "Tract in the Second Addition, ", "Part of the townsite lying in ", ""]))
+        post = draw(st.sampled_from([" lying north of the river", " Section line road", ", lying west of the highway", "", " being the second parcel"]))
+        text = f"{pre}{draw(_TR)}{post}"
+        cfg.pop("sec_within", None)
+        for k in draw(st.sampled_from([(), ("segment",), ("sec_within",), ("segment", "sec_within")])):
+            cfg[k] = True
     elif reason == "colon_required":
         cfg["sec_colon_required"] = True
+        # how the setting reaches the parse: configured; or as a keyword of parse(), also over a configuration that is merely cautious
+        via = draw(st.sampled_from(["config", "config", "parse_kw", "parse_kw_over_cautious_config"]))
         tr = draw(_TR)
         secs = [f"{draw(_SECW)} {draw(st.integers(1, 36))} {draw(_BLOCKS)}" for _ in range(n)]
         text = (tr + draw(_SEP) + draw(_SEP).join(secs)) if draw(st.booleans()) else (draw(_SEP).join(secs) + ", " + tr)
@@ -177,7 +188,7 @@ def fallback_case(draw):
     text = prefix + text + draw(st.sampled_from(["", "", "", ",", " of", ", all in", ";", " and the", " in", ":"]))
     if reason in ("no_twprge", "no_section", "nothing") and draw(st.integers(0, 3)) == 0:
         cfg["segment"] = True        # copy_all is deduced for the whole text, which segment must not cut up
-    return {"reason": reason, "text": text, "cfg": cfg}
+    return {"reason": reason, "text": text, "cfg": cfg, "via": via}
 
 
 TAIL_OK = re.compile(r"([\s,;:\-–—\.]|\b(the|all in|all of|of|in|and)\b)*", re.I)
@@ -197,7 +208,17 @@ def whole_text_modulo_cleanup(desc, pp):
 def oracle_fallback(c):
     text = c["text"]
     ctext = configs.to_text(c["cfg"])
-    d = PLSSDesc(text, config=ctext)
+    via = c.get("via", "config")
+    if via == "config":
+        d = PLSSDesc(text, config=ctext)
+    else:
+        under = {k: v for k, v in c["cfg"].items() if k != "sec_colon_required"}
+        if via == "parse_kw_over_cautious_config":
+            under["sec_colon_cautious"] = True
+        ctext = configs.to_text(under)
+        d = PLSSDesc(text, config=ctext, wait_to_parse=True)
+        d.parse(sec_colon_required=True)
+        ctext += " + parse(sec_colon_required=True)"
     fails = []
     got = [(t.trs, t.desc) for t in d.tracts]
     ctx = dict(text=text, config=ctext, reason=c["reason"], got=got, pp_desc=d.pp_desc, e_flags=list(d.e_flags), layout=d.current_layout)
@@ -209,6 +230,10 @@ def oracle_fallback(c):
         # copy_all deduced for the whole description: the text is kept verbatim
         if t.desc != d.pp_desc:
             fails.append(Failure("fallback_desc_verbatim", f"{c['reason']}: copy_all was deduced but desc {t.desc!r} is not the preprocessed text {d.pp_desc!r}", **ctx))
+    elif c["reason"] == "no_section_amid_text" and (c["cfg"].get("sec_within") or c["cfg"].get("segment")):
+        # under segment the fallback belongs to the segment that begins at the Twp/Rge (what follows is a matter for C04), under
+        # sec_within the text around the Twp/Rge is re-attached (C20); here: one tract, and flagged
+        pass
     elif not whole_text_modulo_cleanup(t.desc, d.pp_desc):
         fails.append(Failure("fallback_desc", f"{c['reason']}: desc {t.desc!r} is not the whole preprocessed text {d.pp_desc!r}", **ctx))
     numeric = t.twp_num is not None and t.rge_num is not None and t.sec_num is not None
@@ -310,10 +335,10 @@ SUBS = [
         render=lambda c: {"text": c["text"]["text"], "channel": c["channel"], "other": configs.to_text(c["cfg"])},
         n={"quick": 800, "thorough": 10000}, shards={"quick": 6, "thorough": 16}, text_keys=("text",),
         essential=tuple(f"channel={ch}" for ch in CHANNELS) + ("splittable",)),
-    Sub("fallback", oracle_fallback, strategy=lambda tier: fallback_case(), classes=lambda c: [f"reason={c['reason']}"] + (["segment"] if c["cfg"].get("segment") else []) + (["sec_within"] if c["cfg"].get("sec_within") else []),
+    Sub("fallback", oracle_fallback, strategy=lambda tier: fallback_case(), classes=lambda c: [f"reason={c['reason']}"] + ([f"via={c['via']}"] if c.get("via", "config") != "config" else []) + (["segment"] if c["cfg"].get("segment") else []) + (["sec_within"] if c["cfg"].get("sec_within") else []),
         render=lambda c: {"text": c["text"], "config": configs.to_text(c["cfg"]), "reason": c["reason"]},
         n={"quick": 800, "thorough": 10000}, shards={"quick": 4, "thorough": 16},
-        essential=("reason=no_twprge", "reason=no_section", "reason=colon_required", "reason=illegal_prior", "reason=secword_without_number", "segment", "sec_within")),
+        essential=("reason=no_twprge", "reason=no_section", "reason=colon_required", "reason=illegal_prior", "reason=secword_without_number", "reason=no_section_amid_text", "segment", "sec_within")),
     Sub("segmented", oracle_segmented, strategy=lambda tier: SEG_CASE,
         classes=lambda c: [f"shape={g['shape']}" for g in c["segs"]] + [f"extra={c['extra']}", f"nsegs={len(c['segs'])}"],
         nontrivial=lambda c: any(g["shape"] != "normal" for g in c["segs"]) and any(g["shape"] == "normal" for g in c["segs"]),
